@@ -26,7 +26,7 @@ one() {
   echo "$d $rc"
 }
 export -f one
-ls -d seeded/C*/m* | xargs -P $par -I{} bash -c "one {} $tier $tmp"
+ls -d seeded/C*/*m[0-9]* | xargs -P $par -I{} bash -c "one {} $tier $tmp"
 out=seeded/RESULTS.md
 { echo "# Seeded changes vs checks (default tier: $tier)"; echo; echo "| seeded change | needs | check result |"; echo "|---|---|---|"; cat $tmp/* ; } > $out
 rm -rf $tmp
